@@ -27,11 +27,12 @@ func init() {
 		"The end-to-end row set needs evaluation of predicates on values; duplicates from repeated/overlapping IN literals and literal-on-the-left comparisons are not structurally decidable (DESIGN.md §6).")
 	propTable["C01"].KeyFilter["NOROWDROP"] = keyHas("ScanPlan", "MultiGetPlan", "ProjectionPlan")
 
-	prop("C02", []string{"PLANMAP", "ROUTE", "NARROWONLYKEY", "ROLECHAIN", "FILTERED", "RMGUARD", "NOROWDROP", "GETNIL", "RANGEALG", "STICKYFLAG", "PREFIXALG", "SCANALG"},
-		"Structural necessary conditions of C02: ROUTE (an operator reaches only the region handler its executor semantics justify; anything else is FULL), NARROWONLYKEY (a narrowing region only for atoms on `key`, with bounds taken from the atom's literals), PLANMAP (scan kinds map to the matching plan, ill-formed cases to the full scan, and the access path is not replaced afterwards), ROLECHAIN (start/end/prefix reach Seek and the stop tests in the right roles, inclusive end, nil-guarded), FILTERED (over-approximated regions are harmless because every pair is filtered), RMGUARD (DELETE drops the filter only for pure key sets), NOROWDROP/GETNIL (no consumed row or empty-valued pair is lost on the narrowed paths). STICKYFLAG (an IN list or BETWEEN pair narrows the scan only if every element is a literal; the flag recording that is never set back by a later element). PREFIXALG (the prefix members of the algebra, over all order/prefix structures of the operands: AND keeps every key both operands contain, OR every key of either). SCANALG (the AND/OR combinators themselves over every pair of scan kinds: routing, argument roles and fall-backs).",
-		"The interval case analysis of union*/intersection*/inRange and the side of the literal ('b' > key) depend on order relations among literals (DESIGN.md §6).")
-	propTable["C02"].KeyFilter["SCANALG"] = keyHas("|sound", "|interpretable")
-	propTable["C02"].KeyFilter["PREFIXALG"] = keyHas("|sound", "|interpretable")
+	prop("C02", []string{"PLANMAP", "ROUTE", "NARROWONLYKEY", "ROLECHAIN", "FILTERED", "RMGUARD", "NOROWDROP", "GETNIL", "RANGEALG", "STICKYFLAG", "PREFIXALG", "SCANALG", "ATOMALG"},
+		"Structural necessary conditions of C02: ROUTE (an operator reaches only the region handler its executor semantics justify; anything else is FULL), NARROWONLYKEY (a narrowing region only for atoms on `key`, with bounds taken from the atom's literals), PLANMAP (scan kinds map to the matching plan, ill-formed cases to the full scan, and the access path is not replaced afterwards), ROLECHAIN (start/end/prefix reach Seek and the stop tests in the right roles, inclusive end, nil-guarded), FILTERED (over-approximated regions are harmless because every pair is filtered), RMGUARD (DELETE drops the filter only for pure key sets), NOROWDROP/GETNIL (no consumed row or empty-valued pair is lost on the narrowed paths). STICKYFLAG (an IN list or BETWEEN pair narrows the scan only if every element is a literal; the flag recording that is never set back by a later element). PREFIXALG (the prefix members of the algebra, over all order/prefix structures of the operands: AND keeps every key both operands contain, OR every key of either). SCANALG (the AND/OR combinators themselves over every pair of scan kinds: routing, argument roles and fall-backs). ATOMALG (the atom layer: every operator x operand shape with the literal on either side).",
+		"intersectionMget/unionMget (Go maps) are outside the abstract interpreter; combinations deeper than one AND/OR are decided compositionally (each level sound over all operand structures, and the domain is closed: no level yields a range open on both sides).")
+	propTable["C02"].KeyFilter["ATOMALG"] = keyHas("|sound", "|interpretable", "|closed")
+	propTable["C02"].KeyFilter["SCANALG"] = keyHas("|sound", "|interpretable", "|closed")
+	propTable["C02"].KeyFilter["PREFIXALG"] = keyHas("|sound", "|interpretable", "|closed")
 	propTable["C02"].KeyFilter["STICKYFLAG"] = keyHas("FilterOptimizer")
 	propTable["C02"].KeyFilter["NOROWDROP"] = keyHas("ScanPlan", "MultiGetPlan")
 
@@ -117,15 +118,16 @@ func init() {
 	propTable["C17"].KeyFilter["OP2TABLE"] = keyHas("|query|", "|pos")
 	propTable["C17"].KeyFilter["USERIDX"] = keyHas("outputQueryAndErrPos")
 
-	prop("C18", []string{"PLANMAP", "MUTSITE", "ROLECHAIN", "NOREADAFTEREXIT", "NARROWONLYKEY", "ROUTE", "RANGEALG", "PREFIXALG", "ERRPROP", "SCANALG"},
-		"Structural necessary conditions of C18: PLANMAP (EMPTY reads nothing, MGET uses point reads only and all keys, PREFIX/RANGE use the matching cursor plan, and the chosen access path is not replaced later), MUTSITE(e) (the point-read plan calls only Get, the empty plan nothing), ROLECHAIN (seek to the region start, stop at the first key beyond the inclusive end / without the prefix), NOREADAFTEREXIT (no further cursor read after the region was left), ROUTE/NARROWONLYKEY (equality and IN produce point regions). PREFIXALG (AND of a prefix with a prefix, range or key set reads nothing when the operands share no key), ERRPROP on the scan plans (a failed Seek or cursor creation is not followed by reads from an unpositioned cursor). SCANALG (AND of any two scan kinds reads nothing when they share no key).",
+	prop("C18", []string{"PLANMAP", "MUTSITE", "ROLECHAIN", "NOREADAFTEREXIT", "NARROWONLYKEY", "ROUTE", "RANGEALG", "PREFIXALG", "ERRPROP", "SCANALG", "ATOMALG"},
+		"Structural necessary conditions of C18: PLANMAP (EMPTY reads nothing, MGET uses point reads only and all keys, PREFIX/RANGE use the matching cursor plan, and the chosen access path is not replaced later), MUTSITE(e) (the point-read plan calls only Get, the empty plan nothing), ROLECHAIN (seek to the region start, stop at the first key beyond the inclusive end / without the prefix), NOREADAFTEREXIT (no further cursor read after the region was left), ROUTE/NARROWONLYKEY (equality and IN produce point regions). PREFIXALG (AND of a prefix with a prefix, range or key set reads nothing when the operands share no key), ERRPROP on the scan plans (a failed Seek or cursor creation is not followed by reads from an unpositioned cursor). SCANALG (AND of any two scan kinds reads nothing when they share no key). ATOMALG (key-pinning atoms read only the pinned region; equality and IN use point reads).",
 		"That intersection* returns a region inside both operands depends on order relations among literals (DESIGN.md §6).")
+	propTable["C18"].KeyFilter["ATOMALG"] = keyHas("|tight", "|interpretable")
 	propTable["C18"].KeyFilter["SCANALG"] = keyHas("|tight", "|interpretable")
 	propTable["C18"].KeyFilter["PREFIXALG"] = keyHas("|tight", "|interpretable")
 	propTable["C18"].KeyFilter["ERRPROP"] = keyHas("ScanPlan", "MultiGetPlan")
 	propTable["C18"].KeyFilter["MUTSITE"] = keyHas("MUTSITE|e|")
 	propTable["C18"].KeyFilter["RANGEALG"] = keyHas("|tight", "|interpretable")
-	propTable["C02"].KeyFilter["RANGEALG"] = keyHas("|sound", "|interpretable")
+	propTable["C02"].KeyFilter["RANGEALG"] = keyHas("|sound", "|interpretable", "|closed")
 
 	prop("C19", []string{"GLOBALS"},
 		"Structural necessary condition of C19 (absence of shared mutable library state): GLOBALS enumerates every package-level variable and shows that no function outside the package initializer and the registration API stores to one, updates or deletes in a map reachable from one, passes one by address to a call, or stores through a shared registry row; NOREFLECT shows the library starts no goroutine and uses no unsafe. Every statement's AST, plan and ExecuteCtx are allocated by its own NewOptimizer/NewExecuteCtx calls, so statements share only read-only tables and the caller's Storage.",
